@@ -196,8 +196,12 @@ func genGrammarCase(rt *rapid.T) *Case {
 		if rapid.IntRange(0, 2).Draw(rt, "isvar-"+name) == 0 {
 			return vals[0]
 		}
-		c.Vars = append(c.Vars, VarList{Name: name, Values: vals})
-		return mkVar(name)
+		vn := name
+		if name == "f" && rapid.Bool().Draw(rt, "emptyname") {
+			vn = "" // the empty string is a variable name like any other
+		}
+		c.Vars = append(c.Vars, VarList{Name: vn, Values: vals})
+		return mkVar(vn)
 	}
 	p := val("p", gAlice, ir.Ent("T0", "bob"))
 	r := val("r", gAdmins, gStaff)
